@@ -1,0 +1,21 @@
+//go:build verif
+
+package task
+
+import (
+	"github.com/AliceO2Group/Control/core/task/constraint"
+	"github.com/AliceO2Group/Control/core/task/taskclass"
+)
+
+// VerifDescriptorConstraints runs Manager.BuildDescriptorConstraints for one descriptor with the
+// given role constraints whose task class (if class is non-nil) is known to the manager.
+// Only the manager's class registry is populated; nothing else of the manager is used.
+func VerifDescriptorConstraints(class *taskclass.Class, roleConstraints constraint.Constraints) constraint.Constraints {
+	m := &Manager{classes: taskclass.NewClasses()}
+	name := "verif-class"
+	if class != nil {
+		m.classes.UpdateClass(name, class)
+	}
+	d := &Descriptor{TaskClassName: name, RoleConstraints: roleConstraints}
+	return m.BuildDescriptorConstraints(Descriptors{d})[d]
+}
